@@ -12,7 +12,7 @@ from ..events import run_function
 from ..interp import AV, Out
 from ..model import AnalysisError
 from ..rows import GenRule, private_helpers
-from ..terms import K, T, TermRule, destruct, is_opaque, term_of, tv
+from ..terms import K, T, TermRule, destruct, is_opaque, norm, term_of, tv
 
 MH = "urllib3.util.ssl_match_hostname"
 
@@ -68,6 +68,13 @@ def _dotless_repeat(pattern, min_needed):
 
 def _flat_add(t):
     op, args = destruct(t)
+    if op == "format":
+        # "\\A{}\\Z".format(x): the f-string with the same fields (terms.norm)
+        nt = norm(t)
+        if destruct(nt)[0] == "cat":
+            return list(destruct(nt)[1])
+    if op == "cat":
+        return list(args)
     if op == "add" and len(args) == 2:
         return _flat_add(args[0]) + _flat_add(args[1])
     if op == "fstr":
@@ -100,7 +107,8 @@ def run(ctx):
     ctx.states += it.budget.steps
     rows = [o for o in outs if not (o.kind == "raise" and str(o.val.val).startswith("<"))]
 
-    SPLIT = [T("split", pdn, K(".")), T("split", pdn, K("."), "-1")]
+    PART = T("partition", pdn, K("."))
+    SPLIT = [T("split", pdn, K(".")), T("split", pdn, K("."), "-1"), PART, T("split", pdn, K("."), "1")]
 
     def leftmost_of(o):
         for sp in SPLIT:
@@ -162,38 +170,57 @@ def run(ctx):
                 anchored = (op == "rx.match" or (c0 is not None and isinstance(c0, str) and c0.startswith(r"\A"))) and c1 is not None and isinstance(c1, str) and c1.endswith(r"\Z") and len(parts) >= 2
                 if c0 is not None and isinstance(c0, str) and c0 in (r"\A", "^"):
                     parts = parts[1:]
+                elif isinstance(c0, str) and c0.startswith(r"\A"):
+                    parts = [K(c0[2:])] + parts[1:]  # the anchor folded together with a constant first fragment
                 if parts and _const(parts[-1]) in (r"\Z",):
                     parts = parts[:-1]
+                elif parts and isinstance(_const(parts[-1]), str) and _const(parts[-1]).endswith(r"\Z") and not _const(parts[-1]).endswith(r"\\Z"):
+                    parts = parts[:-1] + [K(_const(parts[-1])[:-2])]
                 body = parts
             ctx.ob(R1, dm.qual, f"the pattern is anchored at both ends ({op[3:]})", anchored,
                    "" if anchored else f"pattern term {P}: nothing ties the end of the match to the end of the hostname (\\Z / fullmatch): a certificate for *.svc.test is accepted for api.svc.test.evil.example",
                    witness=wit, node=dm.node)
-            if len(body) != 1:
+            first = None
+            if len(body) == 2 and sp == PART and destruct(body[1])[0] == "re.escape" and len(destruct(body[1])[1]) == 1 \
+                    and norm(destruct(body[1])[1][0]) == norm(T("add", T("idx", PART, "1"), T("idx", PART, "2"))):
+                # the name cut once at its first dot: <fragment of the left-most label> + re.escape(<everything from the first dot on>)
+                # re.escape works character by character, so the tail is the remaining labels escaped and joined by escaped dots
+                first = body[0]
+                with_rest.add(first)
+                ctx.ob(R1, dm.qual, "every label after the left-most one is escaped (a literal), and all of them are used", True, "re.escape of the part of the name from its first dot on")
+            elif len(body) != 1:
                 ctx.ob(R1, dm.qual, "between the anchors there is only the joined label list", False, f"pattern pieces {body}", witness=wit, node=dm.node)
                 continue
-            jop, jargs = destruct(body[0])
-            if jop != "join":
+            jop, jargs = destruct(body[0]) if first is None else ("<cut>", ())
+            if first is not None:
+                pass
+            elif jop != "join":
                 if is_opaque(body[0]):
                     raise AnalysisError(f"C08-R1: the pattern body is built in a way the rule cannot read: {body[0]}")
                 ctx.ob(R1, dm.qual, "labels are joined", False, f"pattern body {body[0]}", witness=wit, node=dm.node)
                 continue
-            sep, lst = jargs
-            ctx.ob(R1, dm.qual, "labels are joined by an escaped dot", _const(sep) == r"\.", f"separator {sep}", witness=wit, node=dm.node)
-            lop, elts = destruct(lst)
-            if lop != "list" or not elts:
-                raise AnalysisError(f"C08-R1: the fragment list is built in a way the rule cannot read: {lst}")
-            first, rest = elts[0], list(elts[1:])
-            # ---- the remaining labels: literal, all of them
-            REM = T("slice", sp, "1", "", "")
-            esc_each = T("re.escape", T("each", REM))
-            ok_rest = {(T("rep", esc_each, REM),), (T("star", T("gen", esc_each, REM)),), (T("star", T("listcomp", esc_each, REM)),),
-                       (T("star", T("map", "re.escape", REM)),)}
-            if rest:
-                with_rest.add(first)
-                ctx.ob(R1, dm.qual, "every label after the left-most one is escaped (a literal), and all of them are used", tuple(rest) in ok_rest,
-                       "" if tuple(rest) in ok_rest else f"remaining fragments {rest}: a label other than the left-most can contribute a wildcard, or labels are dropped", witness=wit, node=dm.node)
             else:
-                without_rest.add(first)
+                sep, lst = jargs
+                ctx.ob(R1, dm.qual, "labels are joined by an escaped dot", _const(sep) == r"\.", f"separator {sep}", witness=wit, node=dm.node)
+                lop, elts = destruct(lst)
+                if lop != "list" or not elts:
+                    raise AnalysisError(f"C08-R1: the fragment list is built in a way the rule cannot read: {lst}")
+                first, rest = elts[0], list(elts[1:])
+                # ---- the remaining labels: literal, all of them
+                REM = T("slice", sp, "1", "", "")
+                esc_each = T("re.escape", T("each", REM))
+                ok_rest = {(T("rep", esc_each, REM),), (T("star", T("gen", esc_each, REM)),), (T("star", T("listcomp", esc_each, REM)),),
+                           (T("star", T("map", "re.escape", REM)),)}
+                if rest:
+                    with_rest.add(first)
+                    ctx.ob(R1, dm.qual, "every label after the left-most one is escaped (a literal), and all of them are used", tuple(rest) in ok_rest,
+                           "" if tuple(rest) in ok_rest else f"remaining fragments {rest}: a label other than the left-most can contribute a wildcard, or labels are dropped", witness=wit, node=dm.node)
+                else:
+                    without_rest.add(first)
+            jop = "done"
+            if False:
+                pass
+            jop, jargs = "join-handled", ()
             # ---- the left-most label
             star = o.st.ts.get(("cmp", L, "==", K("*")))
             idn = o.st.facts.get(T("startswith", L, K("xn--")), (None, None))[0] is True or o.st.facts.get(T("startswith", phost, K("xn--")), (None, None))[0] is True
@@ -252,5 +279,5 @@ def run(ctx):
     lost = sorted(without_rest - with_rest)
     ctx.ob(R1, dm.qual, "the remaining labels are always appended", not lost, f"for left-most fragment(s) {lost} no row adds the other labels", node=dm.node)
     # wildcards counted in the left-most label, split on '.'
-    any_cnt = any(any(isinstance(k, str) and k.startswith("count(idx(split(") for k in o.st.facts) for o in rows)
+    any_cnt = any(any(isinstance(k, str) and k.startswith(("count(idx(split(", "count(idx(partition(")) for k in o.st.facts) for o in rows)
     ctx.ob(R2, dm.qual, "wildcards are counted in the left-most label of dn split on '.'", any_cnt, node=dm.node)
